@@ -403,8 +403,12 @@ func (c *xdsClient) reqWhenReconnect(as ADSStream) error {
 }
 
 func (c *xdsClient) sendRequest(req *discoveryv3.DiscoveryRequest) {
-	// put the req to the channel
-	c.reqCh <- req
+	// put the req to the channel, unless the client has been closed: after close() the
+	// sender is gone and nothing drains the channel any more.
+	select {
+	case c.reqCh <- req:
+	case <-c.closeCh:
+	}
 }
 
 func (c *xdsClient) resolveAddr(host string) string {
